@@ -15,7 +15,22 @@ Definition jv_proc (k : kernel) (qp : Z * proc) : jv :=
   let (q, p) := qp in
   JL [JZ q; JZ (p_nice p); JZ (reported_ioprio k p); jv_zs (p_mask p); jv_zs (p_elig p);
       JL (map (fun sh => JL [JZ (fst sh); JZ (snd sh)]) (p_rlim p))].
-Definition jv_kernel (k : kernel) : jv := JL (map (jv_proc k) (k_procs k)).
+Fixpoint pairs_eqb (a b : list (Z * Z)) : bool :=
+  match a, b with
+  | [], [] => true
+  | (x1, y1) :: r1, (x2, y2) :: r2 => (x1 =? x2) && (y1 =? y2) && pairs_eqb r1 r2
+  | _, _ => false
+  end.
+Definition proc_eqb (p q : proc) : bool :=
+  (p_nice p =? p_nice q) && (p_ioprio p =? p_ioprio q) && beqb (p_mask p) (p_mask q) && beqb (p_elig p) (p_elig q)
+  && pairs_eqb (p_rlim p) (p_rlim q).
+(* a kernel state relative to the start state [k0]: an entry that is the same as at the start is
+   printed as the marker Same pid (the harness expands it from the case), a changed one in full *)
+Definition jv_kernel_rel (k0 k : kernel) : jv :=
+  JL (map (fun qp => match kget (fst qp) k0 with
+                     | Some p0 => if proc_eqb p0 (snd qp) then JC "Same" [JZ (fst qp)] else jv_proc k qp
+                     | None => jv_proc k qp
+                     end) (k_procs k)).
 (* outcome; psutil's own exceptions carry the pid *)
 Definition jv_out {A} (pid : Z) (f : A -> jv) (o : outcome A) : jv :=
   match o with
@@ -37,12 +52,12 @@ Definition run_case (k : kernel) (pid : Z) (r : req) : jv :=
   let '(o, k1) := run_req pid r k in
   let '(g, k2) := run_req pid (get_form r) k1 in
   JL [ JL (match kget pid k with Some p => [JL [JZ pid; JB (k_status p)]] | None => [] end);
-       jv_out pid jv_resv o; jv_out pid jv_resv g; jv_kernel k2;
+       jv_out pid jv_resv o; jv_out pid jv_resv g; jv_kernel_rel k k2;
        jv_out pid jv_zs (get_eligible_cpus pid k);
        match spec_req pid r k with
        | Some (so, sk) =>
          match spec_get pid r sk with
-         | Some sg => JL [jv_out pid jv_resv so; jv_out pid jv_resv sg; jv_kernel sk]
+         | Some sg => JL [jv_out pid jv_resv so; jv_out pid jv_resv sg; jv_kernel_rel k sk]
          | None => jnone
          end
        | None => jnone
